@@ -407,7 +407,8 @@ def rule_dims(chk, prog):
   # reader side: transposes to (time, level, lon, lat) and restores the singleton level at axis -3
   h = prog.func(f'{XU}.xarray_to_data_dict')
   r, hctx, henv = ev.run(h)
-  order = henv.get('expected_dims')
+  orders = list({x for x in list(henv.values()) + list(sym.walk(r)) if isinstance(x, Term) and x.k == 'tuple' and len(x.a) == 4 and all(y.k == 'global' for y in x.a)})
+  order = orders[0] if len(orders) == 1 else None
   got = [x.a[-1] for x in order.a] if order is not None and order.k == 'tuple' and all(x.k == 'global' for x in order.a) else None
   chk.check(got == ['XR_TIME_NAME', 'XR_LEVEL_NAME'] + names['nodal_axes'], rule, f'{XU}.xarray_to_data_dict: variables are transposed to (time, level) + NODAL_AXES_NAMES, the order the writer labels', str(got), (h.file, h.lineno))
   ex = [x for x in sym.walk(r) if x.k == 'call' and alg.ext_short(x.a[0]) == 'expand_dims']
